@@ -174,6 +174,21 @@ CLAIMED["C18"] = dict(
     note=TB + " FASTA reading for file: specifications is dnaio's; rates are compared as exact fractions of the decimal literal.",
 )
 
+CLAIMED["C19"] = dict(
+    text="Theorems (coq/Properties/C19.v) on a model of files.py's output-format decision (Model/Format.v: detect_format_from_path incl. os.path.splitext, and its use in "
+    "OutputFiles.open_record_writer): the decision is a function of the output name and of whether the input has qualities only -- the core count and the input's compression are not "
+    "arguments; appending any of .gz/.xz/.bz2/.zst to an uncompressed name never changes it (C19_compression_suffix_irrelevant); a FASTA extension gives FASTA, a FASTQ extension gives "
+    "FASTQ exactly when there are qualities (C19_name_decides, for every stem); unknown names fall back to the input format (C19_fallback); two files vs interleaved: "
+    "deinterleave(interleave pairs) = pairs (C19_interleaved_layout). PARTIAL: that compressed containers hold the same bytes as plain ones is xopen's and the compression libraries' business "
+    "(not modelled); 'FASTA input gives the same names and sequences as FASTQ input' is not yet a theorem of the pipeline model. Both are covered by the matrix: every random single-end/paired "
+    "option set is run plain/two-file/one-core and then under input container {plain,gz,multi-member gz,bz2,xz,zst} x output container {plain,gz,bz2,xz,zst} x interleaved in/out x FASTA "
+    "input x .fasta output names x 1/2 cores; decompressed records must be equal and every file must hold the format its name asks for (own reading of the documentation). Tie of the model: "
+    "extracted decision vs the writer class really created (direct and proxied) for ~400-4000 generated names. Genuine defects repaired: F6 (af2c43b), F21 (41c57e9).",
+    technique="Coq proof (case analysis on the reversed name; list induction) + extracted-model differential correspondence with OutputFiles.open_record_writer + container x layout x name x cores matrix differential",
+    design="6/C19",
+    note=TB + " Python's gzip/bz2/lzma and backports.zstd build the compressed inputs and decompress outputs; a zero-byte container is read as 'no records'; names are lower-cased by the harness before they reach the model.",
+)
+
 NOT_YET = {}
 
 
